@@ -33,6 +33,16 @@ type val struct {
 	V string   `json:"v"`
 	K string   `json:"k,omitempty"` // index key (absent = not indexed)
 	T []string `json:"t,omitempty"` // when present, T[0] is the current value (set by "touch" operations)
+	P string   `json:"p,omitempty"` // ballast: some values are several kilobytes long
+}
+
+// ballast makes every fourth workload value about 6 kB long (repetitive text).
+func ballast(v string) string {
+	var n int
+	if _, err := fmt.Sscanf(v, "v%d", &n); err == nil && n%4 == 1 {
+		return strings.Repeat("ballast "+v+" ", 600)
+	}
+	return ""
 }
 
 // value is what a stored val stands for.
@@ -187,9 +197,9 @@ func ChildMain(dir string, seed int64, killSpec, prefix string) {
 					err = t.Update(v)
 				}
 			case "create":
-				err = t.Create(val{V: o.V, K: keyOf(o.V)})
+				err = t.Create(val{V: o.V, K: keyOf(o.V), P: ballast(o.V)})
 			case "update":
-				err = t.Update(val{V: o.V, K: keyOf(o.V)})
+				err = t.Update(val{V: o.V, K: keyOf(o.V), P: ballast(o.V)})
 			default:
 				err = t.Delete()
 			}
